@@ -348,6 +348,16 @@ func drawEntry(t *rapid.T) EntryCase {
 		if c.Func != "DecodePatch" {
 			c.B = damage(t, c.B, "db")
 		}
+	case 2:
+		// both arguments ill-formed, often byte-identical (shortcuts on identical inputs must not skip the gate)
+		if c.Func != "DecodePatch" && gen.OneIn(t, 2, "both") {
+			c.A = damage(t, c.A, "da2")
+			if rapid.Bool().Draw(t, "same") {
+				c.B = append([]byte{}, c.A...)
+			} else {
+				c.B = damage(t, c.B, "db2")
+			}
+		}
 	}
 	return c
 }
